@@ -148,7 +148,7 @@ def handle : List String → String
   -- Compile / MustCompile: MustCompile panics exactly on the patterns CompileEx rejects
   | ["must", pat] =>
     match Hex.dec pat with
-    | some pat => match compileEx pat false with | .ok _ => "ok" | .error _ => "panic"
+    | some pat => match mustCompile pat with | .ok _ => "ok" | .error _ => "panic"
     | none => "bad-args"
   -- named-field view: the text of {0} and of every named capture, cut out of the line by the caller
   | ["field", ic, pat, line] =>
